@@ -90,6 +90,10 @@ func rtObserve(name string, v string) {
 	rts.out = append(rts.out, fmt.Sprintf("OBS %s=%q", name, v))
 }
 
+func rtObserveInt(name string, v int) {
+	rts.out = append(rts.out, fmt.Sprintf("OBS %s=%d", name, v))
+}
+
 func rtIn(b byte, set string) bool { return strings.IndexByte(set, b) >= 0 }
 func rtOr(a, b bool) bool          { return a || b }
 func rtAnd(a, b bool) bool         { return a && b }
